@@ -757,17 +757,19 @@ impl Arena {
     }
     let header = self.header_mut();
 
-    let want = header.allocated + size;
-    if want <= self.cap {
-      let offset = header.allocated;
-      header.allocated = want;
+    match header.allocated.checked_add(size) {
+      Some(want) if want <= self.cap => {
+        let offset = header.allocated;
+        header.allocated = want;
 
-      #[cfg(feature = "tracing")]
-      tracing::debug!("allocate {} bytes at offset {} from memory", size, offset);
+        #[cfg(feature = "tracing")]
+        tracing::debug!("allocate {} bytes at offset {} from memory", size, offset);
 
-      let allocated = Meta::new(self.ptr as _, offset, size);
-      unsafe { allocated.clear(self) };
-      return Ok(Some(allocated));
+        let allocated = Meta::new(self.ptr as _, offset, size);
+        unsafe { allocated.clear(self) };
+        return Ok(Some(allocated));
+      }
+      _ => {}
     }
 
     // allocate through slow path
@@ -867,31 +869,35 @@ impl Arena {
     let allocated = header.allocated;
     let aligned_offset = align_offset::<T>(allocated);
     let size = mem::size_of::<T>() as u32;
-    let want = aligned_offset + size + extra;
-
-    if want <= self.cap {
-      // break size + extra;
-      let offset = header.allocated;
-      header.allocated = want;
-      let mut allocated = Meta::new(self.ptr as _, offset, want - offset);
-      allocated.align_bytes_to::<T>();
-      #[cfg(feature = "tracing")]
-      tracing::debug!(
-        "allocate {} bytes at offset {} from memory",
-        want - offset,
-        offset
-      );
-      return Ok(Some(allocated));
+    match aligned_offset
+      .checked_add(size)
+      .and_then(|want| want.checked_add(extra))
+    {
+      Some(want) if want <= self.cap => {
+        // break size + extra;
+        let offset = header.allocated;
+        header.allocated = want;
+        let mut allocated = Meta::new(self.ptr as _, offset, want - offset);
+        allocated.align_bytes_to::<T>();
+        #[cfg(feature = "tracing")]
+        tracing::debug!(
+          "allocate {} bytes at offset {} from memory",
+          want - offset,
+          offset
+        );
+        return Ok(Some(allocated));
+      }
+      _ => {}
     }
 
     // allocate through slow path
     match self.freelist {
       Freelist::None => Err(Error::InsufficientSpace {
-        requested: size + extra,
+        requested: size.saturating_add(extra),
         available: self.remaining() as u32,
       }),
       Freelist::Optimistic => {
-        match self.alloc_slow_path_optimistic(Self::pad::<T>() as u32 + extra) {
+        match self.alloc_slow_path_optimistic((Self::pad::<T>() as u32).saturating_add(extra)) {
           Ok(mut bytes) => {
             bytes.align_bytes_to::<T>();
             Ok(Some(bytes))
@@ -900,7 +906,7 @@ impl Arena {
         }
       }
       Freelist::Pessimistic => {
-        match self.alloc_slow_path_pessimistic(Self::pad::<T>() as u32 + extra) {
+        match self.alloc_slow_path_pessimistic((Self::pad::<T>() as u32).saturating_add(extra)) {
           Ok(mut bytes) => {
             bytes.align_bytes_to::<T>();
             Ok(Some(bytes))
